@@ -139,14 +139,14 @@ int main(int argc, char** argv) {
         one(4, u);
         tot(u);
       }
-  for (uint64_t u = 0; u < (1ull << 32); u += thorough ? 4099 : 65537) { one(4, u); tot((uint32_t)u); }
-  for (int k = 0; k < (thorough ? 200000 : 3000); k++) { uint32_t u = (uint32_t)vh_rand(); one(4, u); tot(u); }
+  for (uint64_t u = 0; u < (1ull << 32); u += thorough ? 2039 : 65537) { one(4, u); tot((uint32_t)u); }
+  for (int k = 0; k < (thorough ? 500000 : 3000); k++) { uint32_t u = (uint32_t)vh_rand(); one(4, u); tot(u); }
   /* doubles */
   static const uint64_t dm[] = {0, 1, 2, 0xfffffffffffffull, 0x8000000000000ull, 0x8000000000001ull, 0x7ffffffffffffull, 0x5555555555555ull};
   for (uint64_t s = 0; s < 2; s++)
     for (uint64_t e = 0; e < 2048; e++)
       for (unsigned m = 0; m < 8; m++) one(8, s << 63 | e << 52 | dm[m]);
-  for (int k = 0; k < (thorough ? 200000 : 3000); k++) one(8, vh_rand());
+  for (int k = 0; k < (thorough ? 500000 : 3000); k++) one(8, vh_rand());
   fflush(vh_out);
   fprintf(stderr, "h_float: %ld lines\n", nlines);
   return 0;
